@@ -314,8 +314,10 @@ def row_frame_times(ctx, site):
 
 ROWS = [
     ('asefile::parse::Chunk::read', 'overflow:Sub', 'const(6', row_chunk_size_minus_header),
-    ('asefile::parse::Chunk::read', 'overflow:Sub', 'bytes_available', row_bytes_available),
-    ('asefile::parse::ParseInfo::set_tag_user_data', 'overflow:Add', 'tag_index', row_tag_index_plus_one),
+    # (rows that used to be found by the NAME of a parameter are found by its role: the names of locals are free to change)
+    ('asefile::parse::Chunk::read', 'overflow:Sub', lambda s_: is_param(strip_casts(s_.detail.get('a_term', ('unknown',)))), row_bytes_available),
+    ('asefile::parse::ParseInfo::set_tag_user_data', 'overflow:Add',
+     lambda s_: is_param(strip_casts(s_.detail.get('a_term', ('unknown',)))) and q.const_val(s_.detail.get('b_term', ('unknown',))) == 1, row_tag_index_plus_one),
     ('asefile::cel::CelsData::add_cel', 'ext:index', 'layer_index', row_add_cel_inner),
     ('asefile::cel::CelsData::add_cel', 'ext:index_mut', 'layer_index', row_add_cel_inner),
     ('asefile::cel::CelsData::add_cel', 'ext:index_mut', 'param:self.data,', row_add_cel_outer),
@@ -329,7 +331,7 @@ ROWS = [
 
 def find_row(site):
     for fn, kind, sub, f in ROWS:
-        if site.body.name == fn and site.kind == kind and sub in site.what:
+        if site.body.name == fn and site.kind == kind and (sub(site) if callable(sub) else sub in site.what):
             return f
     # the two accumulations in the old palette decoders: skip += byte ; count += skip
     if site.body.name in (PAL + 'parse_old_chunk_04', PAL + 'parse_old_chunk_11') and site.kind == 'overflow:Add':
